@@ -342,6 +342,58 @@ example :
     let s := Conn.trun (Conn.tinit [false] 4) [.recv 0, .accept, .downgrade 0, .negOk 0 0, .idleExit, .recv 0]
     s.loop.exited = none ∧ s.strong = 0 ∧ (Conn.tstep s .idleExit).loop.exited = some .ok := by decide
 
+/-- **A half-closed substream holds the connection until the object is dropped** (model `Model/Conn/Permits.lean`,
+tied to the real loop and the real `tcp::Substream` in the `tcploop` area: `half_close` = `Sink::poll_close` →
+`AsyncWrite::poll_shutdown` on a held substream, the protocol keeps the object and goes on reading).
+
+The lifetime permit is a field of the substream object; shutting down the write half does not touch it.
+1. Half-closing the oldest held substream of protocol `i` leaves the same entry in the table — same protocol, now
+   `heldHalf` — and changes nothing else (no handle, no command, nothing about the loop).
+2. A half-closed substream of a keep-alive protocol is a strong sender of the command channel: `protocol_set.next()`
+   cannot yield `None`, the idle exit is disabled and does nothing.
+3. It stays there, with its permit, across EVERY other transition of the system — the keep-alive timers of all
+   protocols firing (`downgrade`), handles dropped, other substreams accepted / negotiated / failing / half-closed /
+   dropped, deliveries, channels filling — until its owner drops the object (`dropSub`) or shuts down (`dropRx`):
+   so for every such schedule the idle exit stays disabled, as often as it is tried. -/
+theorem half_closed_substream_holds_connection :
+    (∀ (s : Conn.TLoop) (i k : Nat), Conn.firstAt s.subs i .heldHalf = none → Conn.firstAt s.subs i .held = some k →
+      ∃ x, s.subs[k]? = some x ∧ x.stage = .held ∧ x.proto = some i ∧
+        (Conn.tstep s (.halfClose i)).subs[k]? = some { x with stage := .heldHalf } ∧
+        (Conn.tstep s (.halfClose i)).loop = s.loop ∧ (Conn.tstep s (.halfClose i)).handles = s.handles ∧
+        (Conn.tstep s (.halfClose i)).cmdQ = s.cmdQ) ∧
+    (∀ (s : Conn.TLoop) (x : Conn.Sub), x ∈ s.subs → x.stage = .heldHalf → Conn.kaOf s.ka x.proto = true →
+      0 < s.strong ∧ s.idleEnabled = false ∧ Conn.tstep s .idleExit = s) ∧
+    (∀ (s : Conn.TLoop) (ls : List Conn.TLabel) (k : Nat) (x : Conn.Sub),
+      s.subs[k]? = some x → x.stage = .heldHalf → Conn.kaOf s.ka x.proto = true →
+      (∀ l ∈ ls, ∀ i, x.proto = some i → l ≠ .dropSub i ∧ l ≠ .dropRx i) →
+        (Conn.trun s ls).subs[k]? = some x ∧ 0 < (Conn.trun s ls).strong ∧
+        (Conn.trun s ls).idleEnabled = false ∧
+        Conn.tstep (Conn.trun s ls) .idleExit = Conn.trun s ls) := by
+  refine ⟨Conn.halfClose_keeps, fun s x hmem hx hka => ?_, fun s ls k x hk hx hka hls => ?_⟩
+  · have h2 := Conn.busy_strong_pos s x hmem (Or.inr ⟨hka, Or.inr (Or.inr hx)⟩)
+    exact ⟨h2, Conn.idle_disabled s h2⟩
+  · have h1 := Conn.trun_heldHalf ls s k x hk hx hls
+    have hka' : Conn.kaOf (Conn.trun s ls).ka x.proto = true := by rw [Conn.trun_ka]; exact hka
+    have h2 := Conn.busy_strong_pos _ x (List.mem_of_getElem? h1) (Or.inr ⟨hka', Or.inr (Or.inr hx)⟩)
+    exact ⟨h1, h2, Conn.idle_disabled _ h2⟩
+
+/-- Non-vacuity (the request/response shape): a keep-alive protocol gets an inbound substream, writes its request and
+closes its write half, and waits for the reply. Its keep-alive timer fires (`downgrade`): the only strong sender
+left is the half-closed substream's lifetime permit; the idle exit does nothing, as often as it is tried. Only when
+the protocol drops the object does the connection close (reports made once). For a ping-like protocol the same
+substream never held the connection. -/
+example :
+    let s1 := Conn.trun (Conn.tinit [true] 4) [.recv 0, .accept, .negOk 0 0, .recv 0]
+    let s2 := Conn.trun s1 [.halfClose 0]
+    let s3 := Conn.trun s2 [.downgrade 0, .idleExit, .halfClose 0, .idleExit]
+    let s4 := Conn.trun s3 [.dropSub 0, .idleExit]
+    let t := Conn.trun (Conn.tinit [false] 4) [.recv 0, .accept, .negOk 0 0, .recv 0, .halfClose 0, .downgrade 0, .idleExit]
+    Conn.firstAt s1.subs 0 .heldHalf = none ∧ Conn.firstAt s1.subs 0 .held = some 0 ∧
+    s2.subs = [⟨true, some 0, .heldHalf⟩] ∧ s2.strong = 2 ∧
+    s3.subs = [⟨true, some 0, .heldHalf⟩] ∧ s3.strong = 1 ∧ s3.loop.exited = none ∧
+    s4.loop.exited = some .ok ∧ s4.loop.ps.log = [.proto 0 .substreamOpened, .proto 0 .closed, .mgr] ∧
+    t.loop.exited = some .ok := by decide
+
 /-- The default timeout (regenerated from `src/transport/mod.rs`) is positive, so a fresh
 connection always gets a grace period. -/
 example : 0 < Consts.KEEP_ALIVE_TIMEOUT_SECS := by decide
@@ -355,3 +407,4 @@ end Litep2pVerif.Props.C09
 #print axioms Litep2pVerif.Props.C09.ping_no_prolong
 #print axioms Litep2pVerif.Props.C09.primary_secondary
 #print axioms Litep2pVerif.Props.C09.inbound_negotiation_holds_connection
+#print axioms Litep2pVerif.Props.C09.half_closed_substream_holds_connection
